@@ -454,8 +454,10 @@ def run_unit(name, prop):
             eprops = set(pp for pp, _ in e["tags"])
             if not eprops:
                 if e["origin"][0] == "repo":
-                    # untagged failure inside repo code: a safety obligation (overflow, bounds, division, callee precondition)
-                    eprops = {u.safety_prop} if u.safety_prop else set(u.default_props)
+                    # untagged failure inside repo code: a safety obligation (overflow, bounds, division, callee precondition). It counts
+                    # against the safety property and against every property with a clause in this function's contract: Verus assumes
+                    # the failed check afterwards, so the functional clauses are only established for the inputs that do not trip it
+                    eprops = ({u.safety_prop} if u.safety_prop else set(u.default_props)) | set(pp for pp, _, _ in ftags)
                 else:
                     # untagged proof scaffolding (an overlay assert / invariant) failed: Verus assumes it afterwards, so every property
                     # whose clauses are proved inside this function is no longer established
